@@ -267,7 +267,7 @@ Section Once.
                                (o_inputs o) [] w3 [] w4 ins eq_refl Hq3 Hi3 Ef) as (Hq4 & Hi4 & B4 & M4).
     injection He as <- <-.
     assert (Mfin : forall j oj tj, IsObj j oj tj -> Stored (w_store w4) tj oj ->
-              Stored (dset (info_path tc o) (FInfo (run_info tc o ins))
+              Stored (dset (info_path tc o) (FInfo (run_info tc o (List.length (w_runlog w3)) ins))
                         (if persisting (c_data tc)
                          then dset (result_path tc o) (FValue (run (o_cls o) (persisted_reprs o) ins))
                                    (dset (log_path tc o) (FLog [run_token tc]) (w_store w4))
